@@ -111,11 +111,14 @@ def _check_ancestral(ctx, lf, spec, res, out, locus=None):
                         dict(_slim(spec), check="history", node=node), [float(x) for x in fl[:4]],
                         [float(x) for x in a.sum(axis=1)[:4]], sig="ancestral:sum-over-states")
             return
-    if spec.get("bins", 1) > 1 or spec.get("hmm"):
+    if spec.get("hmm"):
         return
-    # against the exact sum-product restricted to "node v has state s".  In the pruning model this restriction is an extra
-    # leaf below v with the identity as edge matrix and the indicator of s as profile (its factor in the product over the
-    # children of v is exactly the mask `result[:, motif != s] = 0`), so the existing model and theorems apply unchanged.
+    # against the exact sum-product restricted to "node v has state s".  Two expressions of it inside the Lean model:
+    # (1) `lhFixed` (Model/PruneFixed.lean, driver `lfpin`): the mask `result[:, motif != s] = 0` of
+    #     PartialLikelihoodProductDefnFixedMotif on the node addressed by its path from the root - tied HERE to the real code
+    #     (rate bins included); theorem fixed_motif_sum: these values sum over s to the column likelihood;
+    # (2) an extra leaf below v with the identity as edge matrix and the indicator of s as profile, evaluated by the plain
+    #     pruning model (single bin); theorem fixed_motif_eq_pin_leaf says (1) = (2) - compared exactly below.
     import copy
 
     ex = U.extract(lf, dict(spec, seqs=seqs), profiles="oracle", locus=locus)
@@ -123,6 +126,48 @@ def _check_ancestral(ctx, lf, spec, res, out, locus=None):
     names = {-1: "root"} | dict(enumerate(ex["edges"]))
     eye = numpy.eye(m)
     new_e, new_l, sym0 = len(ex["edges"]), len(ex["tips"]), len(ex["symbols"])
+
+    def path_to(t, target, acc=()):
+        if "c" not in t:
+            return None
+        if t["e"] == target:
+            return list(acc)
+        for i, c in enumerate(t["c"]):
+            p = path_to(c, target, acc + (i,))
+            if p is not None:
+                return p
+        return None
+
+    _, body = U.lean_request(ex, [])
+    pin_keys = [(e, name) for e, name in names.items() if name in nodes]
+    pin_replies = ctx.driver.batch([("lfpin", dict(body, path=path_to(ex["tree"], e))) for e, _ in pin_keys] + [U.lean_request(ex, [])])
+    plain_rep = pin_replies[-1]
+    direct = {}
+    for (e, name), rep in zip(pin_keys, pin_replies):
+        if "error" in rep or "error" in plain_rep or not rep.get("internal"):
+            add_failure(out, "corr", "driver error (lfpin)", _slim(spec), "reply", rep.get("error", rep.get("internal")), confirmed=False)
+            return
+        vals = [[unrat(x) for x in row] for row in rep["fixed"]]
+        direct[name] = vals
+        bump(out, "ancestral_direct_model", f"bins={len(ex['bins'])}:depth={len(path_to(ex['tree'], e))}")
+        # theorem fixed_motif_sum, executed: exact equality inside the model
+        plain_lh = [unrat(x) for x in plain_rep["lh"]]
+        if [sum(vals[st][u] for st in range(m)) for u in range(len(plain_lh))] != plain_lh:
+            add_failure(out, "corr", "Lean model: lhFixed summed over the states differs from lh (contradicts fixed_motif_sum)", _slim(spec),
+                        [str(x) for x in plain_lh[:3]], None, confirmed=False)
+            return
+        a = nodes[name]
+        for st in range(m):
+            for i, u in enumerate(rep["index"]):
+                out["evaluations"] += 1
+                if not U.close(float(a[i, st]), vals[st][u], 1e-9):
+                    add_failure(out, "spec", "reconstruct_ancestral_seqs: likelihood restricted to one state of a node differs from the restricted sum-product",
+                                dict(_slim(spec), check="history", node=name, column=i, state=st), float(vals[st][u]), float(a[i, st]),
+                                sig="ancestral:restricted-lh")
+                    return
+    if len(ex["bins"]) > 1:
+        out["nontrivial"].add((spec["model"], spec["seed"], "ancestral-bins"))
+        return
     reqs, keys = [], []
 
     def pinned(t, target):
@@ -150,6 +195,10 @@ def _check_ancestral(ctx, lf, spec, res, out, locus=None):
             add_failure(out, "corr", "driver error (pinned tree)", _slim(spec), "reply", rep["error"], confirmed=False)
             return
         want = [unrat(x) for x in rep["lh"]]
+        if want != direct[name][st]:
+            add_failure(out, "corr", "Lean model: lhFixed differs from the pin-leaf evaluation (contradicts fixed_motif_eq_pin_leaf)", _slim(spec),
+                        [str(x) for x in want[:3]], [str(x) for x in direct[name][st][:3]], confirmed=False)
+            return
         # exact, inside the model: the restricted values of a node sum over its states to the unrestricted likelihood
         # (ambiguity_is_set_sum for the pin leaf + an all-compatible identity-edge leaf being neutral)
         tot = totals.setdefault(name, [0] * len(want))
